@@ -3,4 +3,4 @@ From Common Require Import Bytes Drv.
 From C27 Require Import Model.
 Extraction "model.ml" drv_b2n drv_n2b drv_z_of_n drv_n_of_z drv_nat_of_n drv_n_of_nat
   init mkchk mkproof check run first_hdr sequential expected proof_sound retained in_window
-  out_of_capacity.
+  out_of_capacity spec_answers.
